@@ -1,7 +1,1122 @@
-"""Tie B for C17 (placeholder until the property's translator is written): writes an empty
-coq/theories/Gen/GenC17.v so that the project builds."""
+"""Tie B for C17: regenerate coq/theories/Gen/GenC17.v from the CURRENT source of
+
+  pypyr/subproc.py        Command._run, Command.run, SubprocessResult.check_returncode
+  pypyr/steps/dsl/cmd.py  CmdStep.run_step
+  pypyr/aio/subproc.py    Command._spawn (result construction), Command._run (serial sub-list),
+                          Command.parse_results / _parse_result, Commands.run (aggregation)
+  pypyr/steps/dsl/cmdasync.py  AsyncCmdStep.run_step
+
+Each method becomes one Coq definition over the state-and-exception combinators of
+Model/Cmd.v ("Vocabulary of the definitions generated from the source"); Proofs/GenC17Proofs.v
+proves them equal to the hand-written model.  Repository root: $VERIF_REPO (default /repo).
+
+Fail-closed: a statement or expression outside the subset below makes that definition come out
+as <name>_UNTRANSLATED (reason in a comment), so the equality lemmas stop compiling.
+
+Subset and what is dropped (trusted base):
+  * docstrings, `assert`, `logger.*(...)` calls, `if` statements whose branches only log: dropped.
+  * `x = e`                 let x_n := e in ...            (SSA; a fresh name per assignment)
+  * `if c: A [else: B]` with only pure assignments inside   let '(x', y') := if c then .. else (x, y)
+  * `if c: A else: B` otherwise                             if c then [A;K] else [B;K]
+  * `for x in xs: B`        for_each xs (fun x s => [B]) ;  `break` only as `if c: break` at the
+                            end of a loop body (for_each_until)
+  * `try: B finally: H`     finally_ [B] (fun s => [H])
+  * `try: B except Exception as ex: H` (aio serial loop)    catch_ [B] (fun ex s => [H])
+  * `with self.output_handles() as (stdout, stderr): B`     B with two opaque handles (opening and
+                            closing files is not modelled; `stdout=`/`stderr=`/`cwd=`/`encoding=`
+                            keywords of the spawn calls are dropped)
+  * `raise X(...)`          raise_new "X" s      (the message is dropped)
+  * calls: subprocess.run (keywords capture_output, check, text, shell kept; others listed above
+    dropped; any other keyword is untranslatable), shlex.split / shlexer, x.rstrip(),
+    x.decode(enc) (identity on ASCII, trusted), completed.check_returncode(),
+    SubprocessResult(...), SubprocessError(...), MultiError(msg, errors), len(x) == n, x[0],
+    isinstance(x, SimpleCommandTypes | Sequence | Exception | SubprocessResult | list | (list, tuple)),
+    list.append / list.extend on the tracked lists, self._run / self._spawn / cmd.run / ... per
+    the signature tables below.
+  * attribute and parameter TYPES come from the tables below (Python is untyped): e.g. Command.cmd is
+    `str | list[str]`, `self.results` is the list of result objects.
+"""
+import ast
+import os
+import sys
 from pathlib import Path
+
+REPO = Path(os.environ.get('VERIF_REPO', '/repo'))
 OUT = Path(__file__).resolve().parent.parent / 'coq' / 'theories' / 'Gen' / 'GenC17.v'
-TEXT = '(* Gen/GenC17.v - placeholder *)\n'
-if not OUT.exists() or OUT.read_text() != TEXT:
-    OUT.write_text(TEXT)
+
+
+class Untranslatable(Exception):
+    pass
+
+
+def coq_str(s):
+    if any(ord(c) < 32 or ord(c) > 126 for c in s):
+        raise Untranslatable('non-printable constant')
+    return '"' + s.replace('"', '""') + '"'
+
+
+def is_logging(st):
+    return (isinstance(st, ast.Expr) and isinstance(st.value, ast.Call)
+            and isinstance(st.value.func, ast.Attribute)
+            and ((isinstance(st.value.func.value, ast.Name) and st.value.func.value.id == 'logger')
+                 or ast.unparse(st.value.func.value) == 'self.logger'))
+
+
+def is_doc(st):
+    return isinstance(st, ast.Expr) and isinstance(st.value, ast.Constant) and isinstance(st.value.value, str)
+
+
+def is_noise(st):
+    if is_doc(st) or is_logging(st) or isinstance(st, (ast.Assert, ast.Pass)):
+        return True
+    if isinstance(st, ast.If):
+        return all(is_noise(x) for x in st.body) and all(is_noise(x) for x in st.orelse) \
+            and pure_test(st.test)
+    return False
+
+
+def pure_test(e):
+    """tests that certainly have no effect: names, attributes, not/and/or of those."""
+    if isinstance(e, (ast.Name, ast.Constant)):
+        return True
+    if isinstance(e, ast.Attribute):
+        return pure_test(e.value)
+    if isinstance(e, ast.UnaryOp) and isinstance(e.op, ast.Not):
+        return pure_test(e.operand)
+    if isinstance(e, ast.BoolOp):
+        return all(pure_test(v) for v in e.values)
+    return False
+
+
+def strip(stmts):
+    return [st for st in stmts if not is_noise(st)]
+
+
+def find_function(tree, qual):
+    body, node = tree.body, None
+    for p in qual.split('.'):
+        node = next((n for n in body if isinstance(n, (ast.FunctionDef, ast.AsyncFunctionDef, ast.ClassDef))
+                     and n.name == p), None)
+        if node is None:
+            raise Untranslatable(f'{qual} not found')
+        body = node.body
+    return node
+
+
+# types: bool string strs val res1 res1s completed handle srun pycmd pycmds Z
+#        (aio) aent aents rentry rentrys perrs acmdo acmdos
+
+class Tr:
+    """translator for one method.  spec:
+         params   [(python name, coq name, type)]   (self excluded)
+         attrs    {attr of self: (coq term, type)}   — cells use the marker ('CELL', cellname)
+         cells    {cellname: (getter fmt, setter fmt, type)}   fmt uses {s} / {v}
+         loopobj  {python loop variable: {attr: ('CELL', cellname) | (term fmt with {x}, type)}}
+         result   'unit' | type      (value-returning methods)
+    """
+
+    def __init__(self, spec):
+        self.spec = spec
+        self.fresh = 0
+        self.in_loop = 0
+        self.protected = 0          # inside try / for bodies: no return
+        # ('eff',) unit-valued with effects; ('effv', T) value-returning with effects;
+        # ('pure', T) no effects; ('gen', T) generator / accumulator contributions
+        self.mode = tuple(spec.get('mode', ('eff',)))
+
+    def A(self):
+        return 'andthenv' if self.mode[0] == 'effv' else 'andthen'
+
+    def B(self):
+        return 'bindvv' if self.mode[0] == 'effv' else 'bindv'
+
+    def sub(self, mode, f):
+        old, self.mode = self.mode, mode
+        self.protected += 1
+        try:
+            return f()
+        finally:
+            self.mode = old
+            self.protected -= 1
+
+    def new(self, base):
+        self.fresh += 1
+        base = ''.join(ch if ch.isalnum() or ch == '_' else '_' for ch in base)
+        return f'{base}_{self.fresh}'
+
+    # ---------------------------------------------------------------- expressions
+    def cell_get(self, cell, s):
+        return (self.spec['cells'][cell][0].format(s=s), self.spec['cells'][cell][2])
+
+    def expr(self, e, env, s, want=None):
+        t, ty = self.expr0(e, env, s, want)
+        return self.coerce(t, ty, want)
+
+    def coerce(self, t, ty, want):
+        if want is None or want == ty:
+            return (t, ty)
+        if want == 'val' and ty == 'string':
+            return (f'(VStr {t})', 'val')
+        if want == 'val' and ty == 'strs':
+            return (f'(VList (map VStr {t}))', 'val')
+        if want == 'string' and ty == 'srun':
+            return (f'(as_str {t})', 'string')
+        if want == 'cmdout' and ty == 'res1':
+            return (f'(OutSingle {t})', 'cmdout')
+        if want == 'cmdout' and ty == 'res1s':
+            return (f'(OutList (map EOne {t}))', 'cmdout')
+        if want == 'cmdout' and ty == 'rentrys':
+            return (f'(OutList {t})', 'cmdout')
+        if want == 'rentry' and ty == 'res1':
+            return (f'(EOne {t})', 'rentry')
+        if want == 'rentry' and ty == 'res1s':
+            return (f'(ESer {t})', 'rentry')
+        if want == 'string' and ty == 'aent':
+            return (f'(aent_as_str {t})', 'string')
+        if want == 'perro' and ty == 'perr':
+            return (f'(Some {t})', 'perro')
+        if want == 'perr' and ty == 'perro':
+            return (f'(perro_get {t})', 'perr')
+        if want == 'perr' and ty == 'rentry':
+            return (f'(rres_as_exn {t})', 'perr')
+        if want == 'res1' and ty == 'rentry':
+            return (f'(rres_as_res {t})', 'res1')
+        if want == 'rentry' and ty == 'res1':
+            return (f'(EOne {t})', 'rentry')
+        raise Untranslatable(f'type {ty} where {want} expected')
+
+    def expr0(self, e, env, s, want=None):
+        if isinstance(e, ast.Name):
+            if e.id in env:
+                return env[e.id]
+            if e.id in self.spec.get('local_cells', {}):
+                return self.cell_get(self.spec['local_cells'][e.id], s)
+            raise Untranslatable(f'unknown name {e.id}')
+        if isinstance(e, ast.Constant):
+            v = e.value
+            if isinstance(v, bool):
+                return ('true' if v else 'false', 'bool')
+            if v is None and want == 'val':
+                return ('VNone', 'val')
+            if v is None and want == 'perro':
+                return ('None', 'perro')
+            if isinstance(v, int) and want in ('Z', None):
+                return (f'({v})%Z', 'Z')
+            raise Untranslatable(f'constant {v!r}')
+        if isinstance(e, ast.Attribute):
+            key = ast.unparse(e)
+            if key in self.spec.get('state_globals', {}):
+                return self.cell_get(self.spec['state_globals'][key], s)
+            if key in self.spec.get('globals', {}):
+                return self.spec['globals'][key]
+            if isinstance(e.value, ast.Name) and e.value.id == 'self':
+                if e.attr not in self.spec['attrs']:
+                    raise Untranslatable(f'self.{e.attr}')
+                a = self.spec['attrs'][e.attr]
+                if a[0] == 'CELL':
+                    return self.cell_get(a[1], s)
+                return a
+            if isinstance(e.value, ast.Name) and e.value.id in self.spec.get('loopobj', {}) \
+                    and e.value.id in env:
+                tbl = self.spec['loopobj'][e.value.id]
+                if e.attr not in tbl:
+                    raise Untranslatable(f'{key}')
+                a = tbl[e.attr]
+                if a[0] == 'CELL':
+                    return self.cell_get(a[1], s)
+                return (a[0].format(x=env[e.value.id][0], s=s), a[1])
+            t, ty = self.expr(e.value, env, s)
+            fields = {('completed', 'args'): ('cp_args', 'val'), ('completed', 'returncode'): ('cp_returncode', 'Z'),
+                      ('completed', 'stdout'): ('cp_stdout', 'val'), ('completed', 'stderr'): ('cp_stderr', 'val'),
+                      ('proc', 'returncode'): ('pr_returncode', 'Z'),
+                      ('res1', 'returncode'): ('res_returncode', 'Z'),
+                      ('res1', 'cmd'): ('res_cmd', 'val'), ('res1', 'stdout'): ('res_stdout', 'val'),
+                      ('res1', 'stderr'): ('res_stderr', 'val')}
+            if (ty, e.attr) in fields:
+                fn, fty = fields[(ty, e.attr)]
+                return (f'({fn} {t})', fty)
+            raise Untranslatable(f'attribute {e.attr} of {ty}')
+        if isinstance(e, ast.UnaryOp) and isinstance(e.op, ast.Not):
+            return (f'(negb {self.truth(e.operand, env, s)})', 'bool')
+        if isinstance(e, ast.BoolOp):
+            ts = [self.truth(v, env, s) for v in e.values]
+            op = 'andb' if isinstance(e.op, ast.And) else 'orb'
+            acc = ts[-1]
+            for t in reversed(ts[:-1]):
+                acc = f'({op} {t} {acc})'
+            return (acc, 'bool')
+        if isinstance(e, ast.IfExp):
+            c = self.truth(e.test, env, s)
+            a, ta = self.expr(e.body, env, s)
+            b, tb = self.expr(e.orelse, env, s)
+            if ta != tb:
+                if {ta, tb} <= {'string', 'strs', 'val'}:
+                    a, _ = self.coerce(a, ta, 'val')
+                    b, _ = self.coerce(b, tb, 'val')
+                    ta = 'val'
+                else:
+                    raise Untranslatable(f'conditional expression of types {ta} / {tb}')
+            return (f'(if {c} then {a} else {b})', ta)
+        if isinstance(e, ast.Compare) and len(e.ops) == 1 and isinstance(e.ops[0], (ast.Eq, ast.NotEq)):
+            lhs, rhs = e.left, e.comparators[0]
+            if isinstance(lhs, ast.Call) and isinstance(lhs.func, ast.Name) and lhs.func.id == 'len' \
+                    and len(lhs.args) == 1 and isinstance(rhs, ast.Constant) and isinstance(rhs.value, int) \
+                    and not isinstance(rhs.value, bool) and 0 <= rhs.value < 100:
+                t, ty = self.expr(lhs.args[0], env, s)
+                if ty not in ('res1s', 'rentrys', 'strs', 'perrs'):
+                    raise Untranslatable(f'len of {ty}')
+                r = f'(Nat.eqb (List.length {t}) {rhs.value})'
+                return (r if isinstance(e.ops[0], ast.Eq) else f'(negb {r})', 'bool')
+            raise Untranslatable('comparison')
+        if isinstance(e, ast.Subscript):
+            t, ty = self.expr(e.value, env, s)
+            if ty == 'res1s' and isinstance(e.slice, ast.Constant) and e.slice.value == 0:
+                return (f'(first_res {t})', 'res1')
+            raise Untranslatable('subscript')
+        if isinstance(e, ast.Call):
+            return self.call_expr(e, env, s, want)
+        if isinstance(e, ast.List) and not e.elts and want in ('res1s', 'perrs', 'rentrys'):
+            return ('[]', want)
+        raise Untranslatable(f'expression {type(e).__name__}')
+
+    def kwargs(self, call, names, allow_pos=()):
+        """keyword arguments as a dict; positional ones are named by allow_pos."""
+        out = {}
+        if len(call.args) > len(allow_pos):
+            raise Untranslatable('too many positional arguments')
+        for n, a in zip(allow_pos, call.args):
+            out[n] = a
+        for kw in call.keywords:
+            if kw.arg is None or kw.arg not in names or kw.arg in out:
+                raise Untranslatable(f'keyword {kw.arg}')
+            out[kw.arg] = kw.value
+        return out
+
+    def call_expr(self, e, env, s, want):
+        fn = ast.unparse(e.func)
+        if fn == 'isinstance' and len(e.args) == 2 and not e.keywords:
+            t, ty = self.expr(e.args[0], env, s)
+            cls = ast.unparse(e.args[1])
+            table = {('srun', 'SimpleCommandTypes'): 'is_simple', ('srun', 'Sequence'): 'is_sequence',
+                     ('aent', '(list, tuple)'): 'aent_is_list', ('aent', 'list'): 'aent_is_list',
+                     ('rentry', 'Exception'): 'rres_is_exn', ('rentry', 'SubprocessResult'): 'rres_is_result',
+                     ('rentry', 'list'): 'rres_is_list'}
+            if (ty, cls) not in table:
+                raise Untranslatable(f'isinstance({ty}, {cls})')
+            return (f'({table[(ty, cls)]} {t})', 'bool')
+        if fn in ('shlex.split', 'shlexer') and len(e.args) == 1 and not e.keywords:
+            t, _ = self.expr(e.args[0], env, s, 'string')
+            return (f'(prim_shlex_split {t})', 'strs')
+        if isinstance(e.func, ast.Attribute) and e.func.attr == 'rstrip' and not e.args and not e.keywords:
+            t, ty = self.expr(e.func.value, env, s)
+            if ty != 'val':
+                raise Untranslatable(f'rstrip on {ty}')
+            return (f'(val_rstrip {t})', 'val')
+        if isinstance(e.func, ast.Attribute) and e.func.attr == 'decode' and len(e.args) == 1 and not e.keywords:
+            t, ty = self.expr(e.func.value, env, s)
+            if ty != 'val' or ast.unparse(e.args[0]) != 'self.encoding':
+                raise Untranslatable('decode')
+            return (f'(val_decode {t})', 'val')
+        if fn == 'SubprocessResult':
+            kw = self.kwargs(e, ('cmd', 'returncode', 'stdout', 'stderr'), ('cmd', 'returncode', 'stdout', 'stderr'))
+            if 'cmd' not in kw or 'returncode' not in kw:
+                raise Untranslatable('SubprocessResult without cmd/returncode')
+            c, _ = self.expr(kw['cmd'], env, s, 'val')
+            rc, _ = self.expr(kw['returncode'], env, s, 'Z')
+            so = self.expr(kw['stdout'], env, s, 'val')[0] if 'stdout' in kw else 'VNone'
+            se = self.expr(kw['stderr'], env, s, 'val')[0] if 'stderr' in kw else 'VNone'
+            return (f'(R1 {c} {rc} {so} {se})', 'res1')
+        if fn == 'SubprocessError':
+            kw = self.kwargs(e, ('returncode', 'cmd', 'stdout', 'stderr'), ('returncode', 'cmd', 'stdout', 'stderr'))
+            if 'cmd' not in kw or 'returncode' not in kw:
+                raise Untranslatable('SubprocessError without cmd/returncode')
+            c, _ = self.expr(kw['cmd'], env, s, 'val')
+            rc, _ = self.expr(kw['returncode'], env, s, 'Z')
+            so = self.expr(kw['stdout'], env, s, 'val')[0] if 'stdout' in kw else 'VNone'
+            se = self.expr(kw['stderr'], env, s, 'val')[0] if 'stderr' in kw else 'VNone'
+            return (f'(PErr "pypyr.errors.SubprocessError" {c} {rc} {so} {se})', 'perr')
+        if isinstance(e.func, ast.Attribute) and not e.args and not e.keywords:
+            recv = e.func.value
+            if isinstance(recv, ast.Name) and recv.id in self.spec.get('loopobj_calls', {}) and recv.id in env \
+                    and e.func.attr in self.spec['loopobj_calls'][recv.id]:
+                t, ty = self.spec['loopobj_calls'][recv.id][e.func.attr]
+                return (t.format(x=env[recv.id][0], s=s), ty)
+            if isinstance(recv, ast.Name) and recv.id in env:
+                rt, rty = env[recv.id]
+                mc = self.spec.get('method_calls', {})
+                if (rty, e.func.attr) in mc:
+                    t, ty = mc[(rty, e.func.attr)]
+                    return (t.format(t=rt), ty)
+        pure = self.spec.get('pure_calls', {})
+        if fn in pure:
+            cname, argtys, resty = pure[fn]
+            if e.keywords or len(e.args) != len(argtys):
+                raise Untranslatable(f'arguments of {fn}')
+            args = ' '.join(self.expr(a, env, s, ty)[0] for a, ty in zip(e.args, argtys))
+            return (f'({cname} {args})', resty)
+        raise Untranslatable(f'call {fn}')
+
+    def truth(self, e, env, s):
+        t, ty = self.expr(e, env, s)
+        if ty == 'bool':
+            return t
+        if ty == 'val':
+            return f'(py_truth {t})'
+        if ty in ('res1s', 'strs', 'perrs', 'rentrys'):
+            return f'(negb (is_nil {t}))'
+        if ty == 'Z':
+            return f'(negb (Z.eqb {t} 0))'
+        if ty == 'perro':
+            return f'(perro_truth {t})'
+        raise Untranslatable(f'truthiness of {ty}')
+
+    # ---------------------------------------------------------------- statements
+    LIST_ELT = {'res1s': 'res1', 'perrs': 'perr', 'rentrys': 'rentry'}
+
+    def is_cell_init(self, st):
+        """`name = []` / `name: T = []` for a local that lives in a state cell"""
+        if isinstance(st, ast.AnnAssign) and st.value is not None and isinstance(st.target, ast.Name):
+            tgt, val = st.target, st.value
+        elif isinstance(st, ast.Assign) and len(st.targets) == 1 and isinstance(st.targets[0], ast.Name):
+            tgt, val = st.targets[0], st.value
+        else:
+            return None
+        if tgt.id in self.spec.get('local_cells', {}) and isinstance(val, ast.List) and not val.elts:
+            return tgt.id
+        return None
+
+    def pure_block(self, stmts):
+        """only assignments of effect-free expressions to plain names (possibly under ifs)?"""
+        for st in strip(stmts):
+            if self.is_cell_init(st):
+                return False
+            if isinstance(st, ast.Assign) and len(st.targets) == 1 and isinstance(st.targets[0], ast.Name) \
+                    and not self.effect_call(st.value):
+                continue
+            if isinstance(st, ast.If) and self.pure_block(st.body) and self.pure_block(st.orelse) \
+                    and not self.effect_call(st.test):
+                continue
+            return False
+        return True
+
+    def effect_call(self, e):
+        for n in ast.walk(e):
+            if isinstance(n, (ast.Await, ast.Yield, ast.YieldFrom)):
+                return True
+            if isinstance(n, ast.Call):
+                fn = ast.unparse(n.func)
+                if fn in self.spec.get('effects', {}) or fn in ('subprocess.run', 'asyncio.run'):
+                    return True
+                if isinstance(n.func, ast.Attribute) and n.func.attr in ('append', 'extend'):
+                    return True
+                if isinstance(n.func, ast.Attribute) and n.func.attr == 'check_returncode' \
+                        and self.spec.get('check_returncode_effect'):
+                    return True
+        return False
+
+    def assigned(self, stmts, acc):
+        for st in strip(stmts):
+            if isinstance(st, ast.Assign):
+                if st.targets[0].id not in acc:
+                    acc.append(st.targets[0].id)
+            else:
+                self.assigned(st.body, acc)
+                self.assigned(st.orelse, acc)
+        return acc
+
+    def pure_lets(self, stmts, env, s, final):
+        """stmts (pure) as nested lets ending in final(env)."""
+        stmts = strip(stmts)
+        if not stmts:
+            return final(env)
+        st, rest = stmts[0], stmts[1:]
+        if isinstance(st, ast.Assign):
+            x = st.targets[0].id
+            if x in self.spec.get('local_cells', {}):
+                raise Untranslatable(f'{x} rebound')
+            t, ty = self.expr(st.value, env, s)
+            v = self.new(x)
+            env2 = dict(env)
+            env2[x] = (v, ty)
+            return f'(let {v} := {t} in {self.pure_lets(rest, env2, s, final)})'
+        # pure if: tuple of the names it assigns
+        names = self.assigned([st], [])
+        for n in names:
+            if n not in env:
+                raise Untranslatable(f'{n} assigned only on some paths')
+        c = self.truth(st.test, env, s)
+
+        def tup(env_):
+            return '(' + ', '.join(env_[n][0] for n in names) + ')' if len(names) > 1 else env_[names[0]][0]
+        a = self.pure_lets(st.body, env, s, tup)
+        b = self.pure_lets(st.orelse, env, s, tup)
+        env2 = dict(env)
+        news = []
+        for n in names:
+            v = self.new(n)
+            env2[n] = (v, self.join_type(n, st, env, s))
+            news.append(v)
+        pat = "'(" + ', '.join(news) + ')' if len(news) > 1 else news[0]
+        return f'(let {pat} := (if {c} then {a} else {b}) in {self.pure_lets(rest, env2, s, final)})'
+
+    def join_type(self, n, st, env, s):
+        """type of name n after the pure if: every assignment to it must keep its type."""
+        ty0 = env[n][1]
+        probe = Tr(self.spec)
+        probe.fresh = 10 ** 6
+
+        def walk(stmts, env_):
+            for x in strip(stmts):
+                if isinstance(x, ast.Assign):
+                    t, ty = probe.expr(x.value, env_, s)
+                    if x.targets[0].id == n and ty != ty0:
+                        raise Untranslatable(f'{n} changes type {ty0} -> {ty} under a condition')
+                    env_ = dict(env_)
+                    env_[x.targets[0].id] = (probe.new('p'), ty)
+                else:
+                    walk(x.body, env_)
+                    walk(x.orelse, env_)
+        walk([st], env)
+        return ty0
+
+    def ok(self, s):
+        return f'(GOk, {s})'
+
+    def block(self, stmts, env, s, k):
+        """stmts then continuation k(env, s) -> term of the current mode's type."""
+        if self.mode[0] == 'pure':
+            return self.pure_fn(stmts, env, s)
+        if self.mode[0] == 'gen':
+            return self.contrib(stmts, env, s, self.spec['gen_acc'])
+        stmts = strip(stmts)
+        if not stmts:
+            return k(env, s)
+        st, rest = stmts[0], stmts[1:]
+
+        def cont(env2, s2):
+            return self.block(rest, env2, s2, k)
+
+        cell = self.is_cell_init(st)
+        if cell:
+            s2 = self.new('s')
+            c = self.spec['cells'][self.spec['local_cells'][cell]]
+            return f'(let {s2} := {c[1].format(s=s, v="[]")} in {cont(env, s2)})'
+        if self.pure_block([st]):
+            return self.pure_lets([st], env, s, lambda env2: cont(env2, s))
+        if isinstance(st, ast.Assign) and len(st.targets) == 1 and isinstance(st.targets[0], (ast.Name, ast.Tuple)):
+            return self.effect_value(st.value, env, s, st.targets[0], cont)
+        if isinstance(st, ast.Assign) and len(st.targets) == 1 and isinstance(st.targets[0], ast.Subscript):
+            tgt = st.targets[0]
+            if ast.unparse(tgt.value) in ('self.context', 'context') and isinstance(tgt.slice, ast.Constant) \
+                    and tgt.slice.value == 'cmdOut' and 'out' in self.spec['cells']:
+                v, _ = self.expr(st.value, env, s, 'cmdout')
+                s2 = self.new('s')
+                return f'(let {s2} := {self.spec["cells"]["out"][1].format(s=s, v=v)} in {cont(env, s2)})'
+            raise Untranslatable('subscript assignment')
+        if isinstance(st, ast.Expr) and isinstance(st.value, (ast.Call, ast.Await)):
+            return self.effect_value(st.value, env, s, None, cont)
+        if isinstance(st, ast.If):
+            if self.is_break_if(st):
+                raise Untranslatable('break not at the end of a loop body')
+            c = self.truth(st.test, env, s)
+            a = self.block(st.body, env, s, cont)
+            b = self.block(st.orelse, env, s, cont)
+            return f'(if {c} then {a} else {b})'
+        if isinstance(st, ast.For) and not st.orelse and isinstance(st.target, ast.Name):
+            return self.for_loop(st, env, s, cont)
+        if isinstance(st, ast.Try):
+            return self.try_stmt(st, env, s, cont)
+        if isinstance(st, ast.With) and len(st.items) == 1 \
+                and ast.unparse(st.items[0].context_expr) == 'self.output_handles()' \
+                and isinstance(st.items[0].optional_vars, ast.Tuple) \
+                and all(isinstance(x, ast.Name) for x in st.items[0].optional_vars.elts) \
+                and len(st.items[0].optional_vars.elts) == 2 and 'handles' in self.spec:
+            env2 = dict(env)
+            for x, h in zip(st.items[0].optional_vars.elts, self.spec['handles']):
+                env2[x.id] = h
+            return self.block(st.body, env2, s, cont)
+        if isinstance(st, ast.Raise) and st.exc is not None and isinstance(st.exc, ast.Call) \
+                and isinstance(st.exc.func, ast.Name):
+            if self.mode[0] != 'eff':
+                raise Untranslatable('raise in a value-returning method')
+            name = st.exc.func.id
+            if name == 'MultiError' and len(st.exc.args) == 2 and not st.exc.keywords:
+                errs, _ = self.expr(st.exc.args[1], env, s, 'perrs')
+                return f'(raise_multi {errs} {s})'
+            return f'(raise_new {coq_str(name)} {s})'
+        if isinstance(st, ast.Return):
+            return self.ret(st, env, s)
+        raise Untranslatable(f'statement {type(st).__name__}: {ast.unparse(st)[:60]!r}')
+
+    def ret(self, st, env, s):
+        if self.protected:
+            raise Untranslatable('return inside a loop or try body')
+        if self.mode[0] == 'eff':
+            if st.value is not None and not (isinstance(st.value, ast.Constant) and st.value.value is None):
+                raise Untranslatable('return with a value')
+            return f'(GOk, {s})'
+        res = self.mode[1]
+        if st.value is None:
+            raise Untranslatable('bare return')
+        if isinstance(st.value, ast.Await):
+            tgt = ast.Name(id='__ret', ctx=ast.Store())
+
+            def fin(env2, s2):
+                t, _ = self.coerce(env2['__ret'][0], env2['__ret'][1], res)
+                return f'(GVal {t}, {s2})'
+            return self.effect_value(st.value, env, s, tgt, fin)
+        t, _ = self.expr(st.value, env, s, res)
+        return f'(GVal {t}, {s})'
+
+    def is_break_if(self, st):
+        return isinstance(st, ast.If) and not st.orelse and len(strip(st.body)) == 1 \
+            and isinstance(strip(st.body)[0], ast.Break)
+
+    ITER = {'srun': ('(seq_items {t})', 'string'), 'strs': ('{t}', 'string'), 'pycmds': ('{t}', 'pycmd'),
+            'res1s': ('{t}', 'res1'), 'acmdos': ('{t}', 'acmdo'), 'rentrys': ('{t}', 'rentry'),
+            'aent': ('(aent_items {t})', 'string'), 'rentry': ('(rres_items {t})', 'res1'),
+            'perrs': ('{t}', 'perr')}
+
+    def for_loop(self, st, env, s, cont):
+        it, ity = self.expr(st.iter, env, s)
+        if ity not in self.ITER:
+            raise Untranslatable(f'iteration over {ity}')
+        it = self.ITER[ity][0].format(t=it)
+        x = self.new(st.target.id)
+        s1, s2 = self.new('s'), self.new('s')
+        env2 = dict(env)
+        env2[st.target.id] = (x, self.ITER[ity][1])
+        body = strip(st.body)
+        if any(isinstance(n, ast.Continue) for n in ast.walk(st)):
+            raise Untranslatable('continue')
+        self.in_loop += 1
+        try:
+            enter, inner_s = '', s1
+            if st.target.id in self.spec.get('loopobj', {}) and self.spec.get('fresh_obj'):
+                # a distinct, freshly constructed object per iteration: its own cell starts empty
+                inner_s = self.new('s')
+                enter = f'let {inner_s} := {self.spec["fresh_obj"].format(s=s1)} in '
+            if body and self.is_break_if(body[-1]):
+                brk = body[-1]
+                if any(isinstance(n, ast.Break) for b in body[:-1] for n in ast.walk(b)):
+                    raise Untranslatable('break')
+                b = self.sub(('effv', 'bool'), lambda: self.block(
+                    body[:-1], env2, inner_s, lambda e3, s3: f'(GVal {self.truth(brk.test, e3, s3)}, {s3})'))
+                term = f'(for_each_until {it} (fun {x} {s1} => {enter}{b}) {s})'
+            else:
+                if any(isinstance(n, ast.Break) for n in ast.walk(st)):
+                    raise Untranslatable('break')
+                b = self.sub(('eff',), lambda: self.block(body, env2, inner_s, lambda e3, s3: self.ok(s3)))
+                term = f'(for_each {it} (fun {x} {s1} => {enter}{b}) {s})'
+        finally:
+            self.in_loop -= 1
+        return f'({self.A()} {term} (fun {s2} => {cont(env, s2)}))'
+
+    def try_stmt(self, st, env, s, cont):
+        if st.orelse:
+            raise Untranslatable('try/else')
+        s1, s2 = self.new('s'), self.new('s')
+        if st.finalbody and not st.handlers:
+            body = self.sub(('eff',), lambda: self.block(st.body, env, s, lambda e2, s3: self.ok(s3)))
+            fin = self.sub(('eff',), lambda: self.block(st.finalbody, env, s1, lambda e2, s3: self.ok(s3)))
+            return f'({self.A()} (finally_ {body} (fun {s1} => {fin})) (fun {s2} => {cont(env, s2)}))'
+        if len(st.handlers) == 1 and not st.finalbody and st.handlers[0].name \
+                and isinstance(st.handlers[0].type, ast.Name) and st.handlers[0].type.id == 'Exception':
+            h = st.handlers[0]
+            body = self.sub(('eff',), lambda: self.block(st.body, env, s, lambda e2, s3: self.ok(s3)))
+            ex = self.new(h.name)
+            env2 = dict(env)
+            env2[h.name] = (f'(res_of_exn {ex})', 'res1')
+            hb = self.sub(('eff',), lambda: self.block(h.body, env2, s1, lambda e2, s3: self.ok(s3)))
+            return f'({self.A()} (catch_ {body} (fun {ex} {s1} => {hb})) (fun {s2} => {cont(env, s2)}))'
+        raise Untranslatable('try shape')
+
+    def effect_value(self, e, env, s, target, cont):
+        """a call with effects; binds its value to `target` (a Name / Tuple node, or None)."""
+        if isinstance(e, ast.Await):
+            e = e.value
+        if not isinstance(e, ast.Call):
+            raise Untranslatable('effectful non-call')
+        fn = ast.unparse(e.func)
+        s2 = self.new('s')
+
+        def bind(term, ty):
+            env2 = dict(env)
+            if target is None:
+                pat = self.new('u')
+            elif isinstance(target, ast.Name):
+                if target.id in self.spec.get('local_cells', {}):
+                    raise Untranslatable(f'{target.id} rebound')
+                pat = self.new(target.id)
+                env2[target.id] = (pat, ty)
+            else:
+                if not (isinstance(ty, tuple) and len(ty) == len(target.elts)
+                        and all(isinstance(x, ast.Name) for x in target.elts)):
+                    raise Untranslatable('tuple target')
+                vs = []
+                for x, xty in zip(target.elts, ty):
+                    v = self.new(x.id)
+                    env2[x.id] = (v, xty)
+                    vs.append(v)
+                pat = "'(" + ', '.join(vs) + ')'
+            return f'({self.B()} {term} (fun {pat} {s2} => {cont(env2, s2)}))'
+
+        def unit(term):
+            if target is not None:
+                raise Untranslatable(f'value of {fn}')
+            return f'({self.A()} {term} (fun {s2} => {cont(env, s2)}))'
+
+        def handle_kw(call, names):
+            out = []
+            for name in names:
+                kw = [k for k in call.keywords if k.arg == name]
+                if len(kw) != 1:
+                    raise Untranslatable(f'{name}= of {fn}')
+                t, ty = self.expr(kw[0].value, env, s)
+                if ty != 'pipe':
+                    raise Untranslatable(f'{name}= is not an output handle')
+                out.append(t)
+            return out
+
+        if fn == 'subprocess.run':
+            kw = self.kwargs(e, ('capture_output', 'check', 'text', 'shell', 'cwd', 'encoding', 'stdout', 'stderr'),
+                             ('args',))
+            if 'args' not in kw:
+                raise Untranslatable('subprocess.run without args')
+            a, _ = self.expr(kw['args'], env, s, 'val')
+            flags = []
+            for name in ('capture_output', 'check', 'text', 'shell'):
+                flags.append(self.truth(kw[name], env, s) if name in kw else 'false')
+            for name in ('stdout', 'stderr'):
+                if name in kw and self.expr(kw[name], env, s)[1] != 'handle':
+                    raise Untranslatable(f'{name}= is not an output handle')
+            return bind(f'(prim_subprocess_run {a} {" ".join(flags)} {s})', 'completed')
+        if fn == 'asyncio.create_subprocess_shell':
+            if len(e.args) != 1 or {k.arg for k in e.keywords} - {'stdout', 'stderr', 'cwd'}:
+                raise Untranslatable('create_subprocess_shell arguments')
+            a, _ = self.expr(e.args[0], env, s, 'string')
+            po, pe = handle_kw(e, ('stdout', 'stderr'))
+            return bind(f'(prim_create_subprocess (VStr {a}) true {po} {pe} {s})', 'proc')
+        if fn == 'asyncio.create_subprocess_exec':
+            # exactly (argv[0], *argv[1:]): the whole argv
+            if not (len(e.args) == 2 and isinstance(e.args[0], ast.Subscript) and isinstance(e.args[1], ast.Starred)
+                    and isinstance(e.args[1].value, ast.Subscript)
+                    and ast.unparse(e.args[0]) == ast.unparse(e.args[0].value) + '[0]'
+                    and ast.unparse(e.args[1].value) == ast.unparse(e.args[0].value) + '[1:]') \
+                    or {k.arg for k in e.keywords} - {'stdout', 'stderr', 'cwd'}:
+                raise Untranslatable('create_subprocess_exec arguments')
+            a, aty = self.expr(e.args[0].value, env, s)
+            if aty != 'strs':
+                raise Untranslatable('create_subprocess_exec argv type')
+            po, pe = handle_kw(e, ('stdout', 'stderr'))
+            return bind(f'(prim_create_subprocess (VList (map VStr {a})) false {po} {pe} {s})', 'proc')
+        if fn == 'asyncio.run' and len(e.args) == 1 and not e.keywords and ast.unparse(e.args[0]) == 'self._run()' \
+                and 'asyncio_run' in self.spec:
+            return unit(f'({self.spec["asyncio_run"]} {s})')
+        if isinstance(e.func, ast.Attribute) and e.func.attr == 'communicate' and not e.args and not e.keywords:
+            t, ty = self.expr(e.func.value, env, s)
+            if ty != 'proc':
+                raise Untranslatable('communicate')
+            return bind(f'(prim_communicate {t} {s})', ('val', 'val'))
+        # list mutation on tracked cells
+        if isinstance(e.func, ast.Attribute) and e.func.attr in ('append', 'extend') and len(e.args) == 1 \
+                and not e.keywords and target is None:
+            cell = self.cell_of(e.func.value, env)
+            if cell is None:
+                raise Untranslatable(f'{fn} on an untracked list')
+            getter, setter, cty = self.spec['cells'][cell]
+            if e.func.attr == 'append':
+                v, _ = self.expr(e.args[0], env, s, self.LIST_ELT[cty])
+                new = f'({getter.format(s=s)} ++ [{v}])'
+            else:
+                v, vty = self.expr(e.args[0], env, s)
+                if vty != cty:
+                    raise Untranslatable(f'extend {cty} with {vty}')
+                new = f'({getter.format(s=s)} ++ {v})'
+            return f'(let {s2} := {setter.format(s=s, v=new)} in {cont(env, s2)})'
+        if isinstance(e.func, ast.Attribute) and e.func.attr == 'check_returncode' and not e.args and not e.keywords:
+            t, ty = self.expr(e.func.value, env, s)
+            if ty == 'completed':
+                return unit(f'(prim_check_returncode {t} {s})')
+            raise Untranslatable('check_returncode')
+        eff = self.spec.get('effects', {})
+        key = fn
+        if isinstance(e.func, ast.Attribute) and isinstance(e.func.value, ast.Name) \
+                and e.func.value.id in self.spec.get('loopobj', {}) and e.func.value.id in env:
+            key = f'<{e.func.value.id}>.{e.func.attr}'
+        if key in eff:
+            cname, params, resty, passobj = eff[key]      # params: [(python name, type)]
+            given = {}
+            if len(e.args) > len(params):
+                raise Untranslatable(f'arguments of {fn}')
+            for (pn, _), a in zip(params, e.args):
+                given[pn] = a
+            for kw in e.keywords:
+                if kw.arg not in [pn for pn, _ in params] or kw.arg in given:
+                    raise Untranslatable(f'keyword {kw.arg} of {fn}')
+                given[kw.arg] = kw.value
+            args = []
+            for pn, ty in params:
+                if pn not in given:
+                    raise Untranslatable(f'missing argument {pn} of {fn}')
+                if ty == 'handle':
+                    if self.expr(given[pn], env, s)[1] != 'handle':
+                        raise Untranslatable('handle argument')
+                    continue
+                args.append(self.expr(given[pn], env, s, ty)[0])
+            obj = (env[e.func.value.id][0] + ' ') if passobj else ''
+            call = f'({cname} {obj}{" ".join(args)}{" " if args else ""}{s})'
+            if resty == 'unit':
+                return unit(call)
+            return bind(call, resty)
+        raise Untranslatable(f'call {fn}')
+
+    def cell_of(self, e, env):
+        key = ast.unparse(e)
+        if key in self.spec.get('cell_exprs', {}):
+            return self.spec['cell_exprs'][key]
+        if isinstance(e, ast.Attribute) and isinstance(e.value, ast.Name):
+            if e.value.id == 'self' and self.spec['attrs'].get(e.attr, ('', ''))[0] == 'CELL':
+                return self.spec['attrs'][e.attr][1]
+            if e.value.id in self.spec.get('loopobj', {}) and e.value.id in env:
+                a = self.spec['loopobj'][e.value.id].get(e.attr)
+                if a and a[0] == 'CELL':
+                    return a[1]
+        if isinstance(e, ast.Name) and e.id not in env and e.id in self.spec.get('local_cells', {}):
+            return self.spec['local_cells'][e.id]
+        return None
+
+    # ---------------------------------------------------------------- pure methods
+    def pure_fn(self, stmts, env, s):
+        """if / return / pure assignment only -> a plain term of the result type."""
+        stmts = strip(stmts)
+        if not stmts:
+            raise Untranslatable('falls off the end without return')
+        st, rest = stmts[0], stmts[1:]
+        if isinstance(st, ast.Return):
+            if st.value is None:
+                raise Untranslatable('bare return')
+            return self.expr(st.value, env, s, self.mode[1])[0]
+        acc = self.acc_init(st)
+        if acc is None and self.pure_block([st]):
+            return self.pure_lets([st], env, s, lambda env2: self.pure_fn(rest, env2, s))
+        if acc is None and isinstance(st, ast.If) and not self.effect_call(st.test):
+            c = self.truth(st.test, env, s)
+            a = self.pure_fn(list(st.body) + rest, env, s)
+            b = self.pure_fn(list(st.orelse) + rest, env, s)
+            return f'(if {c} then {a} else {b})'
+        if acc is not None:
+            # `acc = []` ... loops that only add to acc ... `return acc`
+            name, ty = acc
+            terms = []
+            i = 0
+            while i < len(rest) and isinstance(rest[i], ast.For):
+                terms.append(self.contrib([rest[i]], env, s, (name, ty)))
+                i += 1
+            if i == len(rest) - 1 and isinstance(rest[i], ast.Return) and isinstance(rest[i].value, ast.Name) \
+                    and rest[i].value.id == name and self.mode[1] == ty:
+                return '(' + ' ++ '.join(terms or ['[]']) + ')'
+            raise Untranslatable('accumulator shape')
+        raise Untranslatable(f'statement {type(st).__name__} in a pure method')
+
+    def acc_init(self, st):
+        if isinstance(st, ast.Assign) and len(st.targets) == 1 and isinstance(st.targets[0], ast.Name) \
+                and isinstance(st.value, ast.List) and not st.value.elts \
+                and st.targets[0].id in self.spec.get('accumulators', {}):
+            return (st.targets[0].id, self.spec['accumulators'][st.targets[0].id])
+        return None
+
+    def contrib(self, stmts, env, s, acc):
+        """what a statement list adds to the accumulator `acc` = (name | None for yield, list type):
+        a list-valued term.  Only additions, loops, conditionals and pure assignments allowed."""
+        name, lty = acc
+        elt = self.LIST_ELT[lty]
+        stmts = strip(stmts)
+        if not stmts:
+            return '[]'
+        st, rest = stmts[0], stmts[1:]
+
+        def then(t):
+            r = self.contrib(rest, env, s, acc)
+            return t if r == '[]' else f'({t} ++ {r})'
+        if self.pure_block([st]):
+            return self.pure_lets([st], env, s, lambda env2: self.contrib(rest, env2, s, acc))
+        if isinstance(st, ast.Expr):
+            v = st.value
+            if name is None and isinstance(v, ast.Yield) and v.value is not None:
+                return then(f'[{self.expr(v.value, env, s, elt)[0]}]')
+            if name is None and isinstance(v, ast.YieldFrom):
+                return then(self.expr(v.value, env, s, lty)[0])
+            if name is not None and isinstance(v, ast.Call) and isinstance(v.func, ast.Attribute) \
+                    and isinstance(v.func.value, ast.Name) and v.func.value.id == name and len(v.args) == 1 \
+                    and not v.keywords and v.func.attr in ('append', 'extend'):
+                if v.func.attr == 'append':
+                    return then(f'[{self.expr(v.args[0], env, s, elt)[0]}]')
+                return then(self.expr(v.args[0], env, s, lty)[0])
+            raise Untranslatable(f'statement in a contribution block: {ast.unparse(st)[:50]!r}')
+        if isinstance(st, ast.Assign) and len(st.targets) == 1 and isinstance(st.targets[0], ast.Name):
+            # value of a pure method call
+            t, ty = self.expr(st.value, env, s)
+            v = self.new(st.targets[0].id)
+            env2 = dict(env)
+            env2[st.targets[0].id] = (v, ty)
+            return f'(let {v} := {t} in {self.contrib(rest, env2, s, acc)})'
+        if isinstance(st, ast.For) and not st.orelse and isinstance(st.target, ast.Name):
+            it, ity = self.expr(st.iter, env, s)
+            if ity not in self.ITER:
+                raise Untranslatable(f'iteration over {ity}')
+            x = self.new(st.target.id)
+            env2 = dict(env)
+            env2[st.target.id] = (x, self.ITER[ity][1])
+            if any(isinstance(n, (ast.Break, ast.Continue, ast.Return)) for n in ast.walk(st)):
+                raise Untranslatable('break/continue/return in a contribution loop')
+            b = self.contrib(st.body, env2, s, acc)
+            return then(f'(flat_map (fun {x} => {b}) {self.ITER[ity][0].format(t=it)})')
+        if isinstance(st, ast.If):
+            c = self.truth(st.test, env, s)
+            a = self.contrib(st.body, env, s, acc)
+            orelse = strip(st.orelse)
+            if len(orelse) == 1 and isinstance(orelse[0], ast.Raise) and self.exhaustive(st):
+                b = 'dead_branch'
+            else:
+                b = self.contrib(orelse, env, s, acc)
+            return then(f'(if {c} then {a} else {b})')
+        raise Untranslatable(f'statement {type(st).__name__} in a contribution block')
+
+    def exhaustive(self, st):
+        """is `st` the LAST test of an isinstance chain that covers its variable's type?"""
+        chain = self.spec.get('exhaustive')         # (variable, [class texts])
+        if not chain:
+            return False
+        return getattr(self, '_chain_seen', None) is not None and self._chain_seen(st)
+
+    # ---------------------------------------------------------------- a whole method
+    def method(self, fn):
+        env = {}
+        for py, cq, ty in self.spec['params']:
+            env[py] = (cq, ty)
+        declared = [a.arg for a in fn.args.args if a.arg != 'self']
+        if declared != [p[0] for p in self.spec['params']] or fn.args.vararg or fn.args.kwarg or fn.args.kwonlyargs:
+            raise Untranslatable(f'signature ({", ".join(declared)})')
+        body = list(fn.body)
+        # a local that lives in a cell must be initialised (name = []) before its first other use
+        for name in self.spec.get('local_cells', {}):
+            uses = [n for n in ast.walk(ast.Module(body=body, type_ignores=[]))
+                    if isinstance(n, ast.Name) and n.id == name]
+            uses.sort(key=lambda n: (n.lineno, n.col_offset))
+            if not uses or not isinstance(uses[0].ctx, ast.Store) or self.in_nested_loop(body, uses[0]):
+                raise Untranslatable(f'{name} = [] expected before any use')
+            if sum(1 for n in uses if isinstance(n.ctx, ast.Store)) != 1:
+                raise Untranslatable(f'{name} rebound')
+        self.setup_exhaustive(body)
+
+        def end(e2, s2):
+            if self.mode[0] == 'eff':
+                return f'(GOk, {s2})'
+            raise Untranslatable('falls off the end without return')
+        return self.block(body, env, 's', end)
+
+    def in_nested_loop(self, body, node):
+        for n in ast.walk(ast.Module(body=body, type_ignores=[])):
+            if isinstance(n, (ast.For, ast.While)) and any(x is node for x in ast.walk(n)):
+                return True
+        return False
+
+    def setup_exhaustive(self, body):
+        chain = self.spec.get('exhaustive')
+        if not chain:
+            return
+        var, classes = chain
+        # the chain must be: if isinstance(var, C1) elif isinstance(var, C2) ... else: raise
+        tests, cur, last = [], strip(body)[0] if strip(body) else None, None
+        while isinstance(cur, ast.If):
+            t = cur.test
+            if not (isinstance(t, ast.Call) and ast.unparse(t.func) == 'isinstance' and len(t.args) == 2
+                    and ast.unparse(t.args[0]) == var):
+                return
+            tests.append(ast.unparse(t.args[1]))
+            last = cur
+            nxt = strip(cur.orelse)
+            cur = nxt[0] if len(nxt) == 1 else None
+        if sorted(tests) == sorted(classes) and last is not None:
+            self._chain_seen = lambda st: st is last
+
+
+# ====================================================================== what to translate
+
+CELLS = {
+    'self': ('(g_self {s})', '(set_self {s} {v})', 'res1s'),
+    'local': ('(g_local {s})', '(set_local {s} {v})', 'res1s'),
+    'out': ('(g_out {s})', '(set_out {s} {v})', 'cmdout'),
+}
+
+ACELLS = {
+    'local': ('(a_local {s})', '(aset_local {s} {v})', 'res1s'),
+    'agg': ('(a_results {s})', '(aset_results {s} {v})', 'rentrys'),
+    'errors': ('(a_errors {s})', '(aset_errors {s} {v})', 'perrs'),
+    'out': ('(a_out {s})', '(aset_out {s} {v})', 'cmdout'),
+}
+
+SYNC_ATTRS = {'cmd': ('(pc_cmd self)', 'srun'), 'is_shell': ('(pc_is_shell self)', 'bool'),
+              'is_save': ('(pc_is_save self)', 'bool'), 'is_text': ('(pc_is_text self)', 'bool'),
+              'results': ('CELL', 'self'),
+              # dropped keyword values (never reach the output): any placeholder of type handle
+              'cwd': ('tt', 'handle'), 'encoding': ('tt', 'handle')}
+
+AIO_ATTRS = {'is_shell': ('(pc_is_shell self)', 'bool'), 'is_save': ('(pc_is_save self)', 'bool'),
+             'is_text': ('(pc_is_text self)', 'bool'), 'cwd': ('tt', 'handle')}
+
+RES_ATTRS = {'returncode': ('(res_returncode self)', 'Z'), 'cmd': ('(res_cmd self)', 'val'),
+             'stdout': ('(res_stdout self)', 'val'), 'stderr': ('(res_stderr self)', 'val')}
+
+UNITS = [
+    dict(section='GenSubproc', file='pypyr/subproc.py',
+         variables=[('prim_subprocess_run', 'val -> bool -> bool -> bool -> bool -> gst -> gval completed * gst',
+                     'subprocess.run(args, capture_output, check, text, shell)'),
+                    ('prim_check_returncode', 'completed -> gst -> GR', 'CompletedProcess.check_returncode()'),
+                    ('prim_shlex_split', 'string -> list string', 'shlex.split'),
+                    ('config_is_windows', 'bool', 'pypyr.config.config.is_windows')],
+         methods=[
+             dict(qual='Command._run', name='gen_Command__run', ret='GR',
+                  params=[('cmd', 'cmd', 'string'), ('stdout', 'tt', 'handle'), ('stderr', 'tt', 'handle')],
+                  sig='(self : pycmd) (cmd : string) (s : gst)',
+                  attrs=SYNC_ATTRS, cells=CELLS, check_returncode_effect=True,
+                  globals={'config.is_windows': ('config_is_windows', 'bool')}),
+             dict(qual='Command.run', name='gen_Command_run', ret='GR', params=[],
+                  sig='(self : pycmd) (s : gst)', attrs=SYNC_ATTRS, cells=CELLS,
+                  handles=[('tt', 'handle'), ('tt', 'handle')],
+                  effects={'self._run': ('gen_Command__run self',
+                                         [('cmd', 'string'), ('stdout', 'handle'), ('stderr', 'handle')],
+                                         'unit', False)}),
+             dict(qual='SubprocessResult.check_returncode', name='gen_SubprocessResult_check_returncode',
+                  ret='option perr', params=[], sig='(self : res1)', mode=('pure', 'perro'),
+                  attrs=RES_ATTRS, cells={}),
+         ]),
+    dict(section='GenCmdStep', file='pypyr/steps/dsl/cmd.py',
+         variables=[('call_Command_run', 'pycmd -> gst -> GR', 'cmd.run() for cmd in self.commands')],
+         methods=[
+             dict(qual='CmdStep.run_step', name='gen_CmdStep_run_step', ret='GR', params=[],
+                  sig='(commands : list pycmd) (s : gst)',
+                  attrs={'commands': ('commands', 'pycmds')}, cells=CELLS,
+                  local_cells={'results': 'local'},
+                  loopobj={'cmd': {'results': ('CELL', 'self')}},
+                  fresh_obj='(set_self {s} [])',
+                  effects={'<cmd>.run': ('call_Command_run', [], 'unit', True)}),
+         ]),
+    dict(section='GenAioSubproc', file='pypyr/aio/subproc.py',
+         variables=[('prim_create_subprocess', 'val -> bool -> bool -> bool -> ast_ -> gval proc * ast_',
+                     'asyncio.create_subprocess_shell(cmd) / _exec(*argv): (command, shell, stdout is PIPE, '
+                     'stderr is PIPE)'),
+                    ('prim_communicate', 'proc -> ast_ -> gval (val * val) * ast_', 'await proc.communicate()'),
+                    ('prim_shlex_split', 'string -> list string', 'shlexer (shlex.split on POSIX)'),
+                    ('call_check_returncode', 'res1 -> option perr', 'SubprocessResult.check_returncode()'),
+                    ('rec__parse_result', 'rentry -> list perr',
+                     'Command._parse_result, re-entered for the elements of a nested list')],
+         methods=[
+             dict(qual='Command._spawn', name='gen_aio_Command__spawn', ret='gval res1 * ast_',
+                  mode=('effv', 'res1'),
+                  params=[('cmd', 'cmd', 'string'), ('stdout', 'stdout', 'pipe'), ('stderr', 'stderr', 'pipe')],
+                  sig='(self : pycmd) (cmd : string) (stdout stderr : bool) (s : ast_)',
+                  attrs=AIO_ATTRS, cells=ACELLS),
+             dict(qual='Command._run', name='gen_aio_Command__run', ret='gval rentry * ast_',
+                  mode=('effv', 'rentry'),
+                  params=[('cmd', 'cmd', 'aent'), ('stdout', 'stdout', 'pipe'), ('stderr', 'stderr', 'pipe')],
+                  sig='(self : pycmd) (cmd : aentry) (stdout stderr : bool) (s : ast_)',
+                  attrs=AIO_ATTRS, cells=ACELLS, local_cells={'results': 'local'},
+                  effects={'self._spawn': ('gen_aio_Command__spawn self',
+                                           [('cmd', 'string'), ('stdout', 'pipe'), ('stderr', 'pipe')],
+                                           'res1', False)}),
+             dict(qual='Command._parse_result', name='gen_aio_Command__parse_result', ret='list perr',
+                  mode=('gen', 'perrs'), gen_acc=(None, 'perrs'),
+                  params=[('result', 'result', 'rentry')], sig='(result : rentry)',
+                  attrs={}, cells={},
+                  exhaustive=('result', ['Exception', 'SubprocessResult', 'list']),
+                  method_calls={('rentry', 'check_returncode'): ('(call_check_returncode (rres_as_res {t}))', 'perro')},
+                  pure_calls={'self._parse_result': ('rec__parse_result', ['rentry'], 'perrs')}),
+             dict(qual='Command.parse_results', name='gen_aio_Command_parse_results', ret='list perr',
+                  mode=('pure', 'perrs'), params=[], sig='(self_results : list rentry)',
+                  attrs={'_results': ('self_results', 'rentrys')}, cells={},
+                  accumulators={'errors': 'perrs'},
+                  pure_calls={'self._parse_result': ('gen_aio_Command__parse_result', ['rentry'], 'perrs')}),
+         ]),
+    dict(section='GenAioCommands', file='pypyr/aio/subproc.py',
+         variables=[('prim_asyncio_run', 'ast_ -> gout * ast_', 'asyncio.run(self._run())'),
+                    ('call_parse_results', 'list rentry -> list perr', 'cmd.parse_results() on cmd._results')],
+         methods=[
+             dict(qual='Commands.run', name='gen_aio_Commands_run', ret='gout * ast_', params=[],
+                  sig='(commands : list acmdo) (s : ast_)',
+                  attrs={'commands': ('commands', 'acmdos'), '_results': ('CELL', 'agg')}, cells=ACELLS,
+                  local_cells={'errors': 'errors'}, asyncio_run='prim_asyncio_run',
+                  loopobj={'cmd': {'is_save': ('(ao_is_save {x})', 'bool'),
+                                   '_results': ('(ao_results_now {s} {x})', 'rentrys')}},
+                  loopobj_calls={'cmd': {'parse_results': ('(call_parse_results (ao_results_now {s} {x}))', 'perrs')}}),
+         ]),
+    dict(section='GenAsyncCmdStep', file='pypyr/steps/dsl/cmdasync.py',
+         variables=[('call_Commands_run', 'ast_ -> gout * ast_', 'self.commands.run()'),
+                    ('commands_is_save', 'bool', 'self.commands.is_save')],
+         methods=[
+             dict(qual='AsyncCmdStep.run_step', name='gen_AsyncCmdStep_run_step', ret='gout * ast_', params=[],
+                  sig='(s : ast_)', attrs={}, cells=ACELLS,
+                  globals={'self.commands.is_save': ('commands_is_save', 'bool'),
+                           'self.commands.results': ('(a_results s)', 'rentrys')},
+                  state_globals={'self.commands.results': 'agg'},
+                  effects={'self.commands.run': ('call_Commands_run', [], 'unit', False)}),
+         ]),
+]
+
+
+def translate_unit(unit):
+    lines = [f'Section {unit["section"]}.']
+    for name, ty, what in unit['variables']:
+        lines.append('  (* ' + what.replace('(*', '( *').replace('*)', '* )') + ' *)')
+        lines.append(f'  Variable {name} : {ty}.')
+    lines.append('')
+    try:
+        tree = ast.parse((REPO / unit['file']).read_text())
+    except (OSError, SyntaxError) as e:
+        tree = None
+        err = str(e)
+    for m in unit['methods']:
+        lines.append(f'(* source: {unit["file"]} :: {m["qual"]} *)')
+        try:
+            if tree is None:
+                raise Untranslatable(err)
+            fn = find_function(tree, m['qual'])
+            tr = Tr(dict(m))
+            term = tr.method(fn)
+            lines.append(f'Definition {m["name"]} {m["sig"]} : {m["ret"]} :=\n  {term}.')
+        except Untranslatable as e:
+            reason = str(e).replace('*)', '* )').replace('(*', '( *')
+            lines.append(f'(* NOT TRANSLATED: {reason} *)')
+            lines.append(f'Definition {m["name"]}_UNTRANSLATED : unit := tt.')
+        lines.append('')
+    lines.append(f'End {unit["section"]}.')
+    return lines
+
+
+def generate(units=None):
+    out = ['(** Gen/GenC17.v — GENERATED by tools/py2coq_c17.py from the current source under the',
+           '    repository; do not edit.  See the translator for the (fail-closed) subset and what it drops. *)',
+           'From Coq Require Import ZArith List Bool String.',
+           'From PV Require Import PyStr PyVal.',
+           'From PV.Model Require Import Cmd.',
+           'Import ListNotations.',
+           'Local Open Scope string_scope.',
+           'Local Open Scope list_scope.',
+           '']
+    for u in (units or UNITS):
+        out += translate_unit(u)
+        out.append('')
+    return '\n'.join(out)
+
+
+def main():
+    text = generate()
+    if not OUT.exists() or OUT.read_text() != text:
+        OUT.write_text(text)
+    if '--show' in sys.argv:
+        print(text)
+
+
+if __name__ == '__main__':
+    main()
